@@ -30,6 +30,7 @@ MakePrvAsCoded(k, m, t) == LET r == SVar(Atom("rp", k * 10 + m)) IN
 \*  [k signer, m message, t tweak index, alt what is altered before the check, d tweak index used to decrypt]
 Alts == {"none", "sa", "R", "T", "m", "X"}
 Cases(z) == [k : {1, 2}, m : {1, 2}, t : {1, 2, 3, 4}, alt : Alts, d : {0, 1, 2, 3, 4}, ctor : {"pub"}]
+            \cup [k : {1, 2}, m : {1, 2}, t : {0}, alt : {"none"}, d : {0}, ctor : {"pub"}]          \* the edge scalar 0: T = identity
             \cup [k : {1}, m : {1}, t : {1, 3}, alt : {"none"}, d : {1, 3}, ctor : {"prv"}]
 
 Other(i) == IF i = 1 THEN 2 ELSE 1
@@ -51,7 +52,8 @@ Next == UNCHANGED c
 Spec == Init /\ [][Next]_c
 
 \* ---- the laws -----------------------------------------------------------------------------------
-Pub(s) == s.ctor = "pub"
+Pub(s) == s.ctor = "pub" /\ s.t # 0
+ZeroTweakIsASig == c.ctor = "pub" /\ c.t = 0 => LET a == AdapterOf(c) IN Verify(X(c.k), Msg(c.m), a[1], a[2])
 CheckHonest == Pub(c) /\ c.alt = "none" => CheckOutcome(c)
 CheckFailsIfAltered == Pub(c) /\ c.alt # "none" => ~CheckOutcome(c)
 DecryptVerifies == Pub(c) => (DecVerifies(c) <=> c.d = c.t)
@@ -61,8 +63,12 @@ AdapterNotASig == Pub(c) => LET a == AdapterOf(c) IN
 \* sensitivity: the construction of finding F13 does not pass the check and does not decrypt to a signature
 F13Fails == c.ctor = "prv" => ~CheckOutcome(c) /\ ~DecVerifies(c)
 
-Triple(s) == <<IF CheckOutcome(s) THEN "check" ELSE "nocheck", IF DecVerifies(s) THEN "sig" ELSE "nosig",
-               IF Extracted(s) = Tw(s.d) THEN "extract" ELSE "noextract">>
+\* t = 0: the "adapter" for T = identity would itself be a valid signature (ZeroTweakIsASig), so the constructor and the
+\* check must refuse T = identity
+Refused(s) == s.t = 0
+Triple(s) == IF Refused(s) THEN <<"refused", "nosig", "extract">>
+             ELSE <<IF CheckOutcome(s) THEN "check" ELSE "nocheck", IF DecVerifies(s) THEN "sig" ELSE "nosig",
+                    IF Extracted(s) = Tw(s.d) THEN "extract" ELSE "noextract">>
 \* what the property demands of either constructor is what the public-tweak construction gives;
 \* `ascoded` is what the implemented private-tweak construction gives (finding F13)
 Out == [k |-> c.k, m |-> c.m, t |-> c.t, alt |-> c.alt, d |-> c.d, ctor |-> c.ctor,
